@@ -12,7 +12,7 @@ cmake -G Ninja -S $WT -B $WT/_b -DCMAKE_BUILD_TYPE=RelWithDebInfo -DBUILD_EXAMPL
 cmake --build $WT/_b -j$J > $WT/_build0.log 2>&1 || { echo "baseline build failed"; exit 2; }
 INC=$(find $WT/SimTKcommon $WT/SimTKmath $WT/Simbody -type d -name include | grep -v tests | sed 's/^/-I/' | tr '\n' ' ')
 build_demo() { # $1 = dir, $2 = exe
-  g++ -std=c++17 -O1 -w $INC -I$WT/SimTKcommon/Random/src -I$WT/SimTKcommon/src -I$WT/Simbody/src -I$WT/SimTKmath/Integrators/src $1/demo.cpp -o $2 -L$WT/_b -Wl,-rpath,$WT/_b -lSimTKsimbody -lSimTKmath -lSimTKcommon -lpthread -ldl > $1/confirm_build.log 2>&1
+  g++ -std=c++17 -O1 -w $(cat $1/demo_flags 2>/dev/null) $INC -I$WT/SimTKcommon/Random/src -I$WT/SimTKcommon/src -I$WT/Simbody/src -I$WT/SimTKmath/Integrators/src $1/demo.cpp -o $2 -L$WT/_b -Wl,-rpath,$WT/_b -lSimTKsimbody -lSimTKmath -lSimTKcommon -lpthread -ldl > $1/confirm_build.log 2>&1
 }
 for d in "$@"; do
   echo "== $d"
